@@ -1,6 +1,7 @@
 import PtnModel.Proofs.HamModels3
 import PtnModel.Proofs.HamSparse
 import PtnModel.Proofs.HamIsing
+import PtnModel.Proofs.HamGraphWords
 /-!
 # Property C06 (built-in lattice Hamiltonians equal their textbook definitions)
 
@@ -25,6 +26,9 @@ What is proved, for every lattice size `L : ℤ` (`L ≤ 0` and `L` shorter than
 * `*_words`      -- the formal sum handed over is, word by word, the documented sum of local terms (two-site terms only for
   `i + 2 ≤ L`: absent when the chain is shorter than the term).
 * `ising_automaton`, `ising_words` -- the Ising automaton is returned explicitly and denotes the documented sum on every number of sites.
+* `lattice_graph_words`, `*_graph_words`, `ising_graph_words` -- combined with the semantics of the graph compilers proved for C05
+  (`from_opchains_sem`) and C17 (`automaton_sem`): whenever a constructor returns (`L ≥ 1`), the operator graph it hands to
+  `MPO.from_opgraph` has, for every word, exactly the coefficient of that word in the documented sum.
 * `*_tables_charged` -- every table is `d × d`; every local operator of every template shifts the physical charge by exactly
   the jump of the interleaved bond charges at its position; the identity has charge 0 (Bose-Hubbard: for every `d ≥ 0`;
   Fermi-Hubbard: particle number and spin, encoded as `(N << 16) + S`).
@@ -150,6 +154,81 @@ example : isingSum (2 : Int) 3 5 [1, 1, 0] = 2 ∧ isingSum (2 : Int) 3 5 [0, 2,
 /-- non-vacuity of the word theorems: `L = 2`, the words of the XXZ list -/
 example (c : Consts Int) : denChainsRaw (translateChains (xxzTemplates c 2 3 5) 2) 2 0 =
     [([1, -1], c.half * 2), ([-1, 1], c.half * 2), ([2, 2], 3), ([2, 0], -5), ([0, 2], -5)] := rfl
+
+/-! ## the compiled graphs -/
+
+/-- **Chain-template models: the compiled operator graph denotes the documented sum.**  If `_local_opchains_to_mpo` returns for a
+lattice of `L ≥ 1` sites, then for every word `w` the coefficient of `w` in the operator denoted by the graph handed to
+`MPO.from_opgraph` is the coefficient of `w` in the formal sum of the translated, identity-padded templates
+(`coeffIn s w = Σ_{(v, c) ∈ s, v = w} c`; for the four models that sum is spelled out by the `*_words` theorems). -/
+theorem lattice_graph_words (lat : Ham.Lattice κ) (L : Int) (b : Built κ) (h : localOpchainsToMpo lat L = .ok b) (hL : 1 ≤ L)
+    (w : Word) :
+    b.graph.denF w = coeffIn (denChainsRaw (translateChains lat.lopchains L) L lat.oidIdentity) w :=
+  lattice_graph_den lat L b h hL w
+
+/-- `heisenberg_xxz_mpo`: the compiled graph denotes `Σ_i J/2 S⁺_i S⁻_{i+1} + J/2 S⁻_i S⁺_{i+1} + D Sᶻ_i Sᶻ_{i+1} - h Sᶻ_i` -/
+theorem xxz_graph_words (c : Consts κ) (J D h : κ) (L : Int) (b : Built κ)
+    (hb : localOpchainsToMpo (⟨[1, -1], xxzOpmap c, xxzTemplates c J D h, 0⟩ : Ham.Lattice κ) L = .ok b) (hL : 1 ≤ L) (w : Word) :
+    b.graph.denF w = coeffIn
+      (((pyRange 0 (L - 1)).map fun i => (pyRepeat i 0 ++ [1, -1] ++ pyRepeat (L - 2 - i) 0, c.half * J)) ++
+       ((pyRange 0 (L - 1)).map fun i => (pyRepeat i 0 ++ [-1, 1] ++ pyRepeat (L - 2 - i) 0, c.half * J)) ++
+       ((pyRange 0 (L - 1)).map fun i => (pyRepeat i 0 ++ [2, 2] ++ pyRepeat (L - 2 - i) 0, D)) ++
+       ((pyRange 0 L).map fun i => (pyRepeat i 0 ++ [2] ++ pyRepeat (L - 1 - i) 0, -h))) w := by
+  rw [lattice_graph_den _ L b hb hL w, ← Ham.xxz_words]
+
+/-- `heisenberg_xxz_spin1_mpo` -/
+theorem xxz1_graph_words (c : Consts κ) (J D h : κ) (L : Int) (b : Built κ)
+    (hb : localOpchainsToMpo (⟨[1, 0, -1], xxz1Opmap c, xxz1Templates c J D h, 0⟩ : Ham.Lattice κ) L = .ok b) (hL : 1 ≤ L) (w : Word) :
+    b.graph.denF w = coeffIn
+      (((pyRange 0 (L - 1)).map fun i => (pyRepeat i 0 ++ [1, -1] ++ pyRepeat (L - 2 - i) 0, c.half * J)) ++
+       ((pyRange 0 (L - 1)).map fun i => (pyRepeat i 0 ++ [-1, 1] ++ pyRepeat (L - 2 - i) 0, c.half * J)) ++
+       ((pyRange 0 (L - 1)).map fun i => (pyRepeat i 0 ++ [2, 2] ++ pyRepeat (L - 2 - i) 0, D)) ++
+       ((pyRange 0 L).map fun i => (pyRepeat i 0 ++ [2] ++ pyRepeat (L - 1 - i) 0, -h))) w := by
+  rw [lattice_graph_den _ L b hb hL w, ← Ham.xxz1_words]
+
+/-- `bose_hubbard_mpo`, every local dimension -/
+theorem bose_graph_words (c : Consts κ) (d : Nat) (t U mu : κ) (L : Int) (b : Built κ)
+    (hb : localOpchainsToMpo (⟨boseQd d, boseOpmap c d, boseTemplates t U mu, 0⟩ : Ham.Lattice κ) L = .ok b) (hL : 1 ≤ L) (w : Word) :
+    b.graph.denF w = coeffIn
+      (((pyRange 0 (L - 1)).map fun i => (pyRepeat i 0 ++ [1, -1] ++ pyRepeat (L - 2 - i) 0, -t)) ++
+       ((pyRange 0 (L - 1)).map fun i => (pyRepeat i 0 ++ [-1, 1] ++ pyRepeat (L - 2 - i) 0, -t)) ++
+       ((pyRange 0 L).map fun i => (pyRepeat i 0 ++ [2] ++ pyRepeat (L - 1 - i) 0, -mu)) ++
+       ((pyRange 0 L).map fun i => (pyRepeat i 0 ++ [3] ++ pyRepeat (L - 1 - i) 0, U))) w := by
+  rw [lattice_graph_den _ L b hb hL w, ← Ham.bose_words]
+
+/-- `fermi_hubbard_mpo` -/
+theorem fermi_hubbard_graph_words (c : Consts κ) (t U mu : κ) (L : Int) (b : Built κ)
+    (hb : localOpchainsToMpo (⟨spinQd, fermiHubbardOpmap c, fhTemplates t U mu, 0⟩ : Ham.Lattice κ) L = .ok b) (hL : 1 ≤ L) (w : Word) :
+    b.graph.denF w = coeffIn
+      (((pyRange 0 (L - 1)).map fun i => (pyRepeat i 0 ++ [3, 2] ++ pyRepeat (L - 2 - i) 0, -t)) ++
+       ((pyRange 0 (L - 1)).map fun i => (pyRepeat i 0 ++ [4, 1] ++ pyRepeat (L - 2 - i) 0, -t)) ++
+       ((pyRange 0 (L - 1)).map fun i => (pyRepeat i 0 ++ [5, 8] ++ pyRepeat (L - 2 - i) 0, -t)) ++
+       ((pyRange 0 (L - 1)).map fun i => (pyRepeat i 0 ++ [6, 7] ++ pyRepeat (L - 2 - i) 0, -t)) ++
+       ((pyRange 0 L).map fun i => (pyRepeat i 0 ++ [9] ++ pyRepeat (L - 1 - i) 0, -mu)) ++
+       ((pyRange 0 L).map fun i => (pyRepeat i 0 ++ [10] ++ pyRepeat (L - 1 - i) 0, U))) w := by
+  rw [lattice_graph_den _ L b hb hL w, ← fh_words]
+
+/-- `ising_mpo`: whenever the constructor returns, the graph unrolled from the automaton denotes
+`Σ_i J Z_i Z_{i+1} + h Z_i + g X_i` on words of length `L` -/
+theorem ising_graph_words (L : Int) (J h g : κ) (b : Built κ) (hb : isingBuild L J h g = .ok b) (w : Word)
+    (hw : (w.length : Int) = L) :
+    b.graph.denF w =
+      ((List.range w.length).map fun i =>
+        (if w = placedWord [1, 1] w.length i then J else 0) + (if w = placedWord [1] w.length i then h else 0)
+        + (if w = placedWord [2] w.length i then g else 0)).sum :=
+  ising_graph_den L J h g b hb w hw
+
+/-- non-vacuity of the hypothesis `localOpchainsToMpo lat L = .ok b` (a constructor that returns): a one-template lattice model on
+one site, using the evaluated run `from_opchains([3 · op₅], 1, 0)` of C05's examples -/
+example : ∃ b, localOpchainsToMpo
+    (⟨[0, 0], [(0, Mat.identity 2), (5, [[1, 0], [0, -1]])], [⟨[5], [0, 0], 3, 0⟩], 0⟩ : Ham.Lattice Int) 1 = .ok b := by
+  have h : translateChains ([⟨[5], [0, 0], 3, 0⟩] : List (OpChain Int)) 1 = Ptn.Ch.exChains := rfl
+  unfold localOpchainsToMpo
+  simp only [h, Ptn.Ch.ex_from, bind, Except.bind]
+  exact ⟨_, rfl⟩
+
+/-- non-vacuity of `coeffIn`: two terms with the same word add up -/
+example : coeffIn ([([1, 0], 2), ([0, 1], 3), ([1, 0], 5)] : Sym Int) [1, 0] = 7 := by decide
 
 /-! ## charges and block sparsity -/
 
